@@ -11,9 +11,9 @@ git -C "$WT" apply "$SRC/patch.diff"
 if [ ! -d "$WT/_build" ]; then
   cmake -S "$WT" -B "$WT/_build" -G Ninja -DCMAKE_BUILD_TYPE=RelWithDebInfo -DCMAKE_CXX_FLAGS=-Wno-error -DTETL_BUILD_CONTRACT_CHECKS=ON >/dev/null 2>&1
 fi
-cmake --build "$WT/_build" -j 16 >/tmp/refac_build_$P.log 2>&1; BR=$?
+cmake --build "$WT/_build" -j ${JOBS:-16} >/tmp/refac_build_$P.log 2>&1; BR=$?
 CT="(build failed)"
-[ $BR -eq 0 ] && CT=$(ctest --test-dir "$WT/_build" -j 16 2>&1 | grep 'tests passed')
+[ $BR -eq 0 ] && CT=$(ctest --test-dir "$WT/_build" -j ${JOBS:-16} 2>&1 | grep 'tests passed')
 git -C "$WT" checkout -q -- .
 echo "suite with patch: build=$BR $CT"
 if [ $BR -eq 0 ] && echo "$CT" | grep -q '100% tests passed, 0 tests failed out of 261'; then
